@@ -19,6 +19,10 @@ def cfg : Cfg :=
     pid0Refused := Gen.C18.rlimitRefusesPid0
     emptyAsksAll := Gen.C18.emptyAffinityRange
     getSortedSet := Gen.C18.affinityGetSortedSet
-    setDedup := Gen.C18.affinitySetDedup }
+    setDedup := Gen.C18.affinitySetDedup
+    prioGet := ⟨Gen.C18.getpriorityClearsErrno, ErrTest.ofCode Gen.C18.getpriorityErrTest⟩
+    ioprioGet := ⟨Gen.C18.ioprioGetClearsErrno, ErrTest.ofCode Gen.C18.ioprioGetErrTest⟩
+    affGet := ⟨Gen.C18.affinityGetClearsErrno, ErrTest.ofCode Gen.C18.affinityGetErrTest⟩
+    einvalValueError := Gen.C18.affinityEinvalRaisesValueError }
 
 end Psutil.C18
